@@ -9,3 +9,7 @@ import Verif.Props.C12
 #print axioms Verif.Props.C12.eff_zero
 #print axioms Verif.Props.C12.expired_zero
 #print axioms Verif.Props.C12.synthetic_zero
+#print axioms Verif.Props.C12.wheel_wait_le_every_armed_deadline
+#print axioms Verif.Props.C12.wheel_wait_none_iff
+#print axioms Verif.Props.C12.wheel_wait_ge_min
+#print axioms Verif.Props.C12.wheel_wait_insert_le
